@@ -119,7 +119,7 @@ Proof.
   intros n Hn.
   assert (HN : (N.of_nat n <= gap_boundN)%N) by (rewrite <- gap_bound_N; lia).
   destruct (le_lt_dec n 100) as [Hs|Hb].
-  - apply prime_gap_upto_2300. lia.
+  - apply prime_gap_upto_128. lia.
   - destruct (chain_sound _ _ _ chain_gap_bound (N.of_nat n)) as (p & A & Bq & C).
     { split; [lia|exact HN]. }
     exists (N.to_nat p). split; [lia|].
